@@ -278,6 +278,10 @@ def runOp (op : String) (variant : List String) (ints : List Nat) (xs : Array α
   | "bcmp" => go do
       let x ← rdBOp; let y ← rdBOp; let eps ← rdS; let maxRel ← rdS
       return .ok [] [Cmp.bopCmp i0 eps maxRel i1 x y]
+  | "bcmpc" => go do
+      let x ← rdBOp; let y ← rdBOp; let eps ← rdS; let maxRel ← rdS
+      let c := Cmp.scalarCmp i0 eps maxRel i1
+      return .ok [] [Cmp.bopCmp i0 eps maxRel i1 x y, c x.b y.b, c x.d y.d, c x.u y.u, c x.a y.a]
   | "meq" => go do
       let n := if ints.length ≥ 2 then i0 * i1 else i0
       let x ← rdOpinion n
